@@ -4,6 +4,8 @@ import RsslVerif.Lemmas.MacroSubst
 import RsslVerif.Lemmas.MacroApi
 import RsslVerif.Lemmas.SpecInert
 import RsslVerif.Lemmas.MacroHang
+import RsslVerif.Lemmas.MacroTameSpec
+import RsslVerif.Lemmas.MacroTameRun
 /-!
 # C12 — macro expansion and inclusion equal reference textual substitution
 
@@ -15,6 +17,8 @@ namespace RsslVerif.Thm.C12
 open RsslVerif.Gen.MacroTables RsslVerif.Model.Macro RsslVerif.Model.Include RsslVerif.Spec.CPreMacro
 open RsslVerif.Lemmas.MacroScope RsslVerif.Lemmas.Include RsslVerif.Lemmas.MacroTerm RsslVerif.Lemmas.MacroSubst
 open RsslVerif.Lemmas.MacroApi RsslVerif.Lemmas.SpecInert RsslVerif.Lemmas.MacroHang
+open RsslVerif.Model.MacroTame RsslVerif.Lemmas.MacroTame RsslVerif.Lemmas.MacroTameSpec RsslVerif.Lemmas.MacroTameRun
+open RsslVerif.Lemmas.SpecExpand
 
 /-- Tie to the source: the shapes of `preprocess_command`, `apply_single_macro`, `preprocess_initial_file`,
 `Token::is_whitespace` and `compile()` the model was written against. -/
@@ -305,9 +309,6 @@ theorem macro_names_always_distinct (h : Handler) (fuel : Nat) (entry : String) 
 
 /-! ## Refinement of the reference -/
 
-/-- the reference reading of the macro list -/
-def specTable (env : List Entry) : List SMacro := env.map (fun e => ofMacro e.m)
-
 theorem find_specTable (pre post : List Entry) (m : Macro) (hpre : ∀ e ∈ pre, e.m.name ≠ m.name) :
     find (specTable (pre ++ ⟨m, false⟩ :: post)) m.name = some (ofMacro m) := by
   induction pre with
@@ -335,9 +336,6 @@ theorem sinert_of_inert (env : List Entry) (ts : List PTok) (hs : List String) (
     rintro x ⟨e, he, rfl⟩
     simpa [ofMacro] using this e he
   · trivial
-
-theorem ppTokens_append (a b : List PTok) : ppTokens (a ++ b) = ppTokens a ++ ppTokens b := by
-  simp [ppTokens]
 
 /-- **expand_refines_spec_partial.** The model's expansion equals the reference algorithm (`Spec.CPreMacro.expand`,
 Prosser's hide-set algorithm, for some fuel) on the invocation of an object-like macro whose replacement list, like
@@ -395,6 +393,143 @@ theorem expand_refines_spec_partial (pre post : List Entry) (m : Macro) (before 
     exact hfuel
   · simp only [List.map_append, List.map_map, plain, ppTokens_append, hsb]
     simp [Function.comp_def]
+
+
+/-! ## Refinement of the reference on the tame class -/
+
+/-- all entries enabled, as `apply_macros` starts -/
+def allEnabled (defs : List Macro) : List Entry := defs.map (⟨·, false⟩)
+
+theorem specTable_allEnabled (defs : List Macro) : specTable (allEnabled defs) = defs.map ofMacro := by
+  simp [specTable, allEnabled, List.map_map, Function.comp_def]
+
+theorem rel_plain (defs : List Macro) (toks : List PTok) : Rel (allEnabled defs) (plain (ppTokens toks)) toks := by
+  refine ⟨by simp [plain, List.map_map, Function.comp_def], ?_, ?_⟩
+  · intro t _ x hx
+    obtain ⟨e, he, hd, _⟩ := mem_disabledNames.mp hx
+    simp only [allEnabled, List.mem_map] at he
+    obtain ⟨m, _, rfl⟩ := he
+    cases hd
+  · intro t ht n _ _ x hx
+    simp only [plain, List.mem_map] at ht
+    obtain ⟨k, _, rfl⟩ := ht
+    cases hx
+
+/-- **expand_refines_spec.** *The refinement theorem.*  Whenever a token list has a tame expansion `out` under a
+macro table (`Lemmas.MacroTame.Tame`: macros are object-like or function-like with any number of parameters,
+refer to themselves and to each other, invocations nest inside arguments and replacement lists, arguments contain
+parenthesised commas, span lines, are empty), then
+* the model of `apply_macros` returns `out`, and
+* the reference C algorithm (`Spec.CPreMacro.expand`, Prosser's algorithm with per-token hide sets, rescanning the
+  replacement list together with the rest of the source) returns, for some fuel, the same tokens -- white space aside,
+  which is no token for the reference.
+The relation between the two bookkeepings is `Lemmas.MacroTameSpec.Rel`: in the list rssl is scanning, every
+token's hide set contains the names of the disabled entries, and the tokens that name enabled macros have exactly
+that hide set.  A derivation exists exactly for the inputs accepted by the decision procedure `tameRun`
+(`expand_refines_spec_decided`), for every input over a table of object-like macros (`object_like_refines_spec`); the
+side conditions of `Tame` exclude the deviation classes `differs_*` below, and only those were found necessary:
+replacement lists without `##` (`WFMacro.noConcat`; `paste_*` treat `##`), what an argument expands to names no enabled
+macro (`OnlyDisabled`), no invocation spans the end of an expanded replacement list (`NoFire`), a function-like name
+that is not invoked is not followed by a line end and `(` (`Kept`). -/
+theorem expand_refines_spec (defs : List Macro) (toks out : List PTok) (hwf : ∀ m ∈ defs, WFMacro m)
+    (h : Tame (allEnabled defs) toks out) :
+    applyMacros defs toks = .ok out ∧
+    ∃ fuel r, expand (defs.map ofMacro) fuel (plain (ppTokens toks)) = .ok r ∧ r.map (·.tok) = ppTokens out := by
+  constructor
+  · have := tame_model h toks SearchPos.start 0 rfl (Nat.le_refl _) (Nat.le_refl _) (passes_start _ _)
+    simpa [applyMacros, allEnabled] using this
+  · have hwf' : ∀ e ∈ allEnabled defs, WFMacro e.m := by
+      intro e he
+      simp only [allEnabled, List.mem_map] at he
+      obtain ⟨m, hm, rfl⟩ := he
+      exact hwf m hm
+    obtain ⟨r, hs, hro⟩ := tame_spec h hwf' (plain (ppTokens toks)) (rel_plain defs toks)
+    obtain ⟨f, hf⟩ := sexp_complete hs
+    rw [specTable_allEnabled] at hf
+    exact ⟨f, r, hf f (Nat.le_refl _), hro.toks⟩
+
+/-- **expand_refines_spec_decided.** Membership in the class of `expand_refines_spec` is decidable: if `tameRun`
+(executable, `Model/MacroTame.lean`) accepts a token list under a table with pairwise distinct names, rssl's expansion
+and the reference C algorithm both yield what it returns.  (The driver classifies every case of the correspondence run
+with `tameRun`: a case it accepts on which the real preprocessor differs from the harness's independent reference
+preprocessor is reported as a broken obligation.) -/
+theorem expand_refines_spec_decided (defs : List Macro) (toks out : List PTok) (fuel : Nat)
+    (hwf : ∀ m ∈ defs, WFMacro m) (hnd : (defs.map (·.name)).Nodup)
+    (h : tameRun fuel (allEnabled defs) toks = some out) :
+    applyMacros defs toks = .ok out ∧
+    ∃ fuel' r, expand (defs.map ofMacro) fuel' (plain (ppTokens toks)) = .ok r ∧ r.map (·.tok) = ppTokens out :=
+  expand_refines_spec defs toks out hwf
+    (tameRun_sound fuel _ _ _ (by simpa [entryNames, allEnabled, List.map_map, Function.comp_def] using hnd) h)
+
+/-- **object_like_refines_spec.** Object-like macros in full: for every table of object-like macros (pairwise
+distinct names, replacement lists without `##`) -- with replacement lists that mention other macros and themselves,
+nested to any depth, self- and mutually referential -- and every token list, rssl's expansion equals the reference C
+algorithm: expansion of a self- or mutually referential macro stops exactly where the C rule ("a macro name found
+during the rescan of its own replacement is not replaced, and is no longer available for further replacement") says.
+rssl rescans a replacement list in isolation with the macro's flag set, C rescans it together with the rest of the
+source with the name in the hide set of every token of the list: with object-like macros only, no invocation spans
+the end of a replacement list, so the two coincide. -/
+theorem object_like_refines_spec (defs : List Macro) (toks : List PTok) (hnd : (defs.map (·.name)).Nodup)
+    (hobj : ∀ m ∈ defs, m.isFunction = false) (hwf : ∀ m ∈ defs, WFMacro m) (hnc : NoConcat toks) :
+    ∃ out fuel r, applyMacros defs toks = .ok out ∧
+      expand (defs.map ofMacro) fuel (plain (ppTokens toks)) = .ok r ∧ r.map (·.tok) = ppTokens out := by
+  have htab : ObjTable (allEnabled defs) := by
+    refine ⟨by simpa [entryNames, allEnabled, List.map_map, Function.comp_def] using hnd, ?_, ?_, ?_⟩
+    · intro e he
+      simp only [allEnabled, List.mem_map] at he
+      obtain ⟨m, hm, rfl⟩ := he
+      exact hobj m hm
+    · intro e he
+      simp only [allEnabled, List.mem_map] at he
+      obtain ⟨m, hm, rfl⟩ := he
+      exact (hwf m hm).noConcat
+    · intro e he t ht i hi
+      simp only [allEnabled, List.mem_map] at he
+      obtain ⟨m, hm, rfl⟩ := he
+      have := ((hwf m hm).argRange t ht i hi).2
+      rw [hobj m hm] at this
+      cases this
+  obtain ⟨out, hT⟩ := tame_object_total _ (allEnabled defs) rfl htab toks hnc
+  obtain ⟨h1, fuel, r, h2, h3⟩ := expand_refines_spec defs toks out hwf hT
+  exact ⟨out, fuel, r, h1, h2, h3⟩
+
+
+section Examples
+/-- located tokens -/
+private def L (ks : List Tok) : List PTok := ks.map (⟨·, true⟩)
+
+/-- non-vacuity of `object_like_refines_spec`: `#define A A B`, `#define B A C`, `#define C B` (self- and mutually
+referential), text `A B C` -/
+example : ∃ out fuel r,
+    applyMacros [⟨"A", false, 0, L [.id "A", .ws, .id "B"]⟩, ⟨"B", false, 0, L [.id "A", .ws, .id "C"]⟩,
+      ⟨"C", false, 0, L [.id "B"]⟩] (L [.id "A", .ws, .id "B", .ws, .id "C"]) = .ok out ∧
+    expand ([⟨"A", false, 0, L [.id "A", .ws, .id "B"]⟩, ⟨"B", false, 0, L [.id "A", .ws, .id "C"]⟩,
+      ⟨"C", false, 0, L [.id "B"]⟩].map ofMacro) fuel (plain (ppTokens (L [.id "A", .ws, .id "B", .ws, .id "C"]))) = .ok r ∧
+    r.map (·.tok) = ppTokens out := by
+  apply object_like_refines_spec
+  · decide
+  · decide
+  · intro m hm; exact wfMacro_of_wfB m (by revert m; decide)
+  · unfold NoConcat; decide
+
+/-- what the expansion is: `A` gives `A A B`, `B` gives `A B B`, `C` gives `A B C`: each name stops at its own
+repetition -/
+example : tameRun 12 (allEnabled [⟨"A", false, 0, L [.id "A", .ws, .id "B"]⟩, ⟨"B", false, 0, L [.id "A", .ws, .id "C"]⟩,
+      ⟨"C", false, 0, L [.id "B"]⟩]) (L [.id "A", .ws, .id "B", .ws, .id "C"]) =
+    some (L [.id "A", .ws, .id "A", .ws, .id "B", .ws, .id "A", .ws, .id "B", .ws, .id "B", .ws, .id "A", .ws, .id "B",
+      .ws, .id "C"]) := by decide
+
+/-- non-vacuity of `expand_refines_spec_decided`: `#define F(X,Y) X + Y`, `#define G(X) F(X, (X,2)) G(X)`; text
+`G ( F(1,3) ) ;` -- a nested invocation inside an argument, an argument with a parenthesised comma, a blank before
+the `(`, a self-reference -/
+example : tameRun 20 (allEnabled [⟨"F", true, 2, L [.arg 0, .ws, .punct "+", .ws, .arg 1]⟩,
+      ⟨"G", true, 1, L [.id "F", .lparen, .arg 0, .comma, .ws, .lparen, .arg 0, .comma, .int "2", .rparen, .rparen,
+        .ws, .id "G", .lparen, .arg 0, .rparen]⟩])
+      (L [.id "G", .ws, .lparen, .ws, .id "F", .lparen, .int "1", .comma, .int "3", .rparen, .ws, .rparen, .ws, .punct ";"]) =
+    some (L [.int "1", .ws, .punct "+", .ws, .int "3", .ws, .punct "+", .ws, .lparen, .int "1", .ws, .punct "+", .ws,
+      .int "3", .comma, .int "2", .rparen, .ws, .id "G", .lparen, .int "1", .ws, .punct "+", .ws, .int "3", .rparen,
+      .ws, .punct ";"]) := by decide
+end Examples
 
 /-! ## Inclusion -/
 
